@@ -8,8 +8,8 @@ import (
 	"os"
 	"path/filepath"
 	"sync"
-	"time"
 	"testing"
+	"time"
 
 	snes "github.com/alttpo/snes"
 	"github.com/alttpo/snes/asm"
@@ -140,6 +140,14 @@ func c18Run(w c18Work, rendezvous func()) (h uint64, err error) {
 				var b bytes.Buffer
 				cpu.(*rig.Alt).C.DisassembleCurrentPC(&b)
 				d.add(b.Bytes())
+			}
+			// interrupts: the vectors come from this workload's own memory image
+			if i%5 == int(w.Seed%5) {
+				if rig.Mix(w.Seed, uint32(i))&1 == 0 {
+					cpu.TriggerIRQ()
+				} else {
+					cpu.SetInterrupt(interruptNMI)
+				}
 			}
 			c, s, p := cpu.Step()
 			d.add(c, s, fmt.Sprint(p))
